@@ -245,7 +245,6 @@ Proof.
     eapply sim_bind.
     + rewrite (spec_global_any _ _ W1).
       apply (list_inner v sel H Ord (push_t None s)); auto.
-      apply (glob_global_none v (top s)); auto.
     + apply (sim_bind_ret' _ _ (push_t None s) pop_t); [|apply pop_push_t].
       apply (list_inner v iters H0 Ord (push_t None s)); auto.
   - (* ITemplate *)
@@ -394,3 +393,43 @@ Qed.
 Lemma imports_null_lemma : forall v site n m ch r s,
   top s = None -> walk v (IImports site n m ch r) s = (s, [{| o_site := site; o_cur := None; o_ai := Some (n, m, ch) |}], false).
 Proof. intros v site n m ch r s H. cbn [walk]. unfold mk_obs. rewrite H. reflexivity. Qed.
+
+(* ------------------------------------------------------------------------------------------ *)
+(* composition with the C10 model of findTemplate: the decision of xsl:apply-imports *)
+
+Require Import XV.TmplTree XV.Properties_C10.
+
+Lemma choice_lemma :
+  forall (node : Type) (key_of : node -> nkey) (pmatch : N -> node -> bool) pa (node_of : N -> node) s shape_of,
+  (forall p sub, subsheet s p = Some sub -> pa = true \/ uniform_union_priorities sub = true) ->
+  (forall p sub n, subsheet s p = Some sub -> matcher_respects_shapes node key_of pmatch sub (node_of n) shape_of) ->
+  forall o, coded_choice node key_of pmatch pa node_of s o -> specified_choice node pmatch node_of s o.
+Proof.
+  intros node key_of pmatch pa node_of s shape_of Hu Hm o.
+  unfold coded_choice, specified_choice.
+  destruct (o_ai o) as [[[n mode] ch]|]; [|trivial]. destruct (o_cur o) as [t|]; [|trivial].
+  intros (cs & Hcs & Hch).
+  rewrite csubsheet_compile in Hcs. destruct (subsheet s (tr_path t)) as [sub|] eqn:Es; [|discriminate].
+  cbn in Hcs. inversion Hcs; subst cs.
+  exists sub, (find_template node key_of pmatch pa true (compile sub) mode (node_of n) true).
+  split; [reflexivity|]. split; [|exact Hch].
+  exact (proj2 (apply_imports_scope node key_of pmatch pa s (tr_path t) sub mode (node_of n) shape_of Es
+                  (Hu _ _ Es) (Hm _ _ n Es))).
+Qed.
+
+Lemma end_to_end_lemma :
+  forall (node : Type) (key_of : node -> nkey) (pmatch : N -> node -> bool) pa (node_of : N -> node) s shape_of,
+  (forall p sub, subsheet s p = Some sub -> pa = true \/ uniform_union_priorities sub = true) ->
+  (forall p sub n, subsheet s p = Some sub -> matcher_respects_shapes node key_of pmatch sub (node_of n) shape_of) ->
+  forall v, v_call_keeps v = true ->
+  forall i h st, wf h i = true -> compat h (itop st) = true -> glob_ok v h (top st) i = true ->
+  forall st' o ok, walk v i st = (st', o, ok) ->
+  Forall (coded_choice node key_of pmatch pa node_of s) o ->
+  o = fst (spec h (top st) i) /\
+  Forall (specified_choice node pmatch node_of s) (fst (spec h (top st) i)).
+Proof.
+  intros node key_of pmatch pa node_of s shape_of Hu Hm v Hv i h st Hw Hc Hg st' o ok E Hcoded.
+  destruct (sim_lemma v Hv i h st Hw Hc Hg _ _ _ E) as [A _].
+  destruct (spec h (top st) i) as [a b]. inversion A; subst. cbn. split; [reflexivity|].
+  eapply Forall_impl; [|exact Hcoded]. apply (choice_lemma node key_of pmatch pa node_of s shape_of Hu Hm).
+Qed.
